@@ -28,12 +28,32 @@ impl Property for C14 {
         }
     }
     fn rule(&self) -> &'static str {
-        "one case = an arrangement of 2-4 project directories (names drawn from a small pool so that clashes are frequent, missing or syntactically invalid names, imports forming trees, diamonds, cycles and self-imports, import keys that do or do not match the imported project's name, unknown keys) + one request, executed under 8 different seeded hash orders (std RandomState keys come from the interposed getrandom) with the FIFO schedule. A few arrangements carry one document the documented schema excludes (empty target body, two kinds at once, unknown keys, invalid target name), which must be rejected. Oracle: no run panics or aborts; the verdict (accepted / rejected before anything runs) and the multiset of scripts started are identical for all 8 hash orders. distinct_nontrivial = distinct (arrangement hash) among cases that load at least two projects"
+        "one case = an arrangement of 2-4 project directories (names drawn from a small pool so that clashes are frequent, missing or syntactically invalid names, imports forming trees, diamonds, cycles and self-imports, import keys that do or do not match the imported project's name, unknown keys) + one request, executed under 8 different seeded hash orders (std RandomState keys come from the interposed getrandom) with the FIFO schedule. A few arrangements carry one document the documented schema excludes (empty target body, two kinds at once, unknown keys, invalid target name), which must be rejected; every 400th case is one valid project with a dependency chain of 12 000 or 4 000 targets (`--clean`, which resolves every target). Oracle: no run panics or aborts; the verdict (accepted / rejected before anything runs) and the multiset of scripts started are identical for all 8 hash orders. distinct_nontrivial = distinct (arrangement hash) among cases that load at least two projects"
     }
     fn assumptions(&self) -> Vec<&'static str> {
         vec!["only the schedule-free determinism and no-abort half of C14 is decided here; totality over arbitrary byte strings and strictness of the schema are input-space claims left to fuzzing (DESIGN.md §7 C14)"]
     }
-    fn generate(&self, rng: &mut Rng, _case: u64) -> Scenario {
+    fn generate(&self, rng: &mut Rng, case_no: u64) -> Scenario {
+        if case_no % 400 == 123 {
+            // a valid but very deep project: loading must not abort (stack depth of the resolver)
+            let n = if (case_no / 400) % 2 == 0 { 12_000 } else { 4_000 };
+            let mut y = String::from("targets:\n");
+            for i in 0..n {
+                y.push_str(&format!("  t{}:\n", i));
+                if i > 0 {
+                    y.push_str(&format!("    dependencies: [t{}]\n", i - 1));
+                }
+                y.push_str(&format!("    build: \"@sim id=p0.t{}\"\n", i));
+            }
+            let projects = vec![Project { dir: "p0".into(), name: None, imports: vec![], targets: vec![], raw_yaml: Some(y) }];
+            let mut sc = Scenario { focus: None, label: format!("config-deep-chain-{}", n), projects, files: vec![], vars: BTreeMap::new(), steps: vec![] };
+            // the verdict does not depend on the hash order here: two orders are enough; the
+            // request is a shallow target so that an accepted project runs quickly
+            for h in 0..2u64 {
+                sc.steps.push(Step::Invoke(Invocation { entry: 0, args: vec!["--clean".into()], hash_seed: 5 + h, plan: Plan { seed: 1, ..Default::default() }, side: 0 }));
+            }
+            return sc;
+        }
         let k = rng.range(2, 4);
         let dirs = ["p0", "pa", "pb", "pc"];
         let pool = ["dup", "lib", "util", "dup"];
@@ -172,7 +192,7 @@ impl Property for C14 {
                     stats.sample = Some(s);
                 }
                 if let Some(a) = r.abnormal() {
-                    return viol("abnormal-exit-while-loading", format!("how={}", a), format!("zinoma ended abnormally ({}) on this arrangement of project files (hash seed {}): {}", a, inv.hash_seed, r.stderr.lines().rev().take(2).collect::<Vec<_>>().join(" | ")));
+                    return viol("abnormal-exit-while-loading", format!("how={} shape={}", a, sc.label), format!("zinoma ended abnormally ({}) on this arrangement of project files (hash seed {}): {}", a, inv.hash_seed, r.stderr.lines().rev().take(2).collect::<Vec<_>>().join(" | ")));
                 }
                 let class = if r.code == 0 && r.main_returned() {
                     "accepted".to_string()
